@@ -223,6 +223,15 @@ def run(ctx):
             ctx.count("C05.B6 not applicable: PopLoopFrame has no computed jump")
 
         # ---- B3
+        if prog.has_fn("minijinja::vm::Executor::load_blocks"):
+            from .c06 import extends_capture_pairing
+            op_ok, cl_ok = extends_capture_pairing(prog)
+            ctx.ob("C05.B3.extends-discard-capture-is-paired", tag + "eval_impl|LoadBlocks", bool(op_ok) and bool(cl_ok),
+                   "the discarding capture of `{%% extends %%}` is %s: the end_capture that runs when the parent's "
+                   "instructions take over pops unconditionally, so a conditional begin_capture makes it pop a capture "
+                   "that belongs to an enclosing construct (set / filter / import)" % (
+                       "not opened on every path after a successful load" if not op_ok else "not closed on every path"),
+                   prog.fn(EI).loc)
         check_vm_pairs(ctx, prog, tag)
         from .pairs import check_closers
         nb = check_closers(ctx, prog, tag, "C05.B3.vm-closer-only-after-successful-opener",
@@ -272,7 +281,7 @@ def scan_direction(prog, fns, region):
     return "mixed"
 
 
-def check_parser_resets(ctx, prog, tag, an):
+def check_parser_resets(ctx, prog, tag, an, prefix="C05.B2", why_extra=""):
     """bodies that are separate evaluations must be parsed with in_loop reset; the for-else body with the outer value"""
     # which AST payloads are isolated?  (a) compiled on another generator, (b) function emits Return after children
     isolated_payloads = set()
@@ -291,7 +300,7 @@ def check_parser_resets(ctx, prog, tag, an):
             for l in range(2, f.argc + 1):
                 for a in f.locals[l].get("args", []) if f.locals[l].get("adt", "").endswith("ast::Spanned") else []:
                     isolated_payloads.add(a.split("<")[0])
-    ctx.floor("C05.B2 isolated-evaluation constructs" + tag, len(isolated_payloads), 2 if "minijinja::compiler::ast::Block" in prog.adts else 1)
+    ctx.floor(prefix + " isolated-evaluation constructs" + tag, len(isolated_payloads), 2 if "minijinja::compiler::ast::Block" in prog.adts else 1)
     n = 0
     for g, f in prog.fns.items():
         if not g.startswith(PARSER + "::") or f.kind == "closure":
@@ -306,20 +315,28 @@ def check_parser_resets(ctx, prog, tag, an):
         if payload is None or not subs:
             continue
         n += 1
+        class _R:
+            def __init__(self, bb):
+                self.bb = bb
         resets = []
         for c in f.calls():
             if c.name == "core::mem::replace" and len(c.args) == 2 and c.args[1].get("c", {}).get("int") == "0":
                 if any("in_loop" in o.proj for o in flow.origins(f, c.args[0])):
                     resets.append(c)
+        # the plain form: `let old = self.in_loop; self.in_loop = false;`
+        for d in flow.stores(f):
+            if "in_loop" in flow._proj_names(d.place) and d.rv and d.rv["k"] == "use" and (d.rv["op"].get("c") or {}).get("int") == "0":
+                resets.append(_R(d.bb))
         ok = bool(resets) and all(any(cfg.dominates(f, r.bb, s.bb) for r in resets) for s in subs)
         restored = any("in_loop" in flow._proj_names(d.place) and any(
-            o.kind == "call" and o.call.name == "core::mem::replace" for o in flow.origins(f, d.rv["op"])) for d in flow.stores(f)
-            if d.rv and d.rv["k"] == "use")
-        ctx.ob("C05.B2.isolated-body-parsed-outside-loop", "%s%s|%s" % (tag, g, payload.split("::")[-1]), ok and restored,
+            (o.kind == "call" and o.call.name == "core::mem::replace") or (o.kind == "arg" and "in_loop" in o.proj)
+            for o in flow.origins(f, d.rv["op"])) for d in flow.stores(f)
+            if d.rv and d.rv["k"] == "use" and "c" not in d.rv["op"])
+        ctx.ob(prefix + ".isolated-body-parsed-outside-loop", "%s%s|%s" % (tag, g, payload.split("::")[-1]), ok and restored,
                "the body of %s is evaluated separately (own generator / macro frame) but is parsed with `in_loop` "
                "inherited: a break/continue inside it would jump into the enclosing loop's code (reset before "
                "subparse: %s, restored: %s)" % (payload.split("::")[-1], ok, restored), f.loc)
-    ctx.floor("C05.B2 parser functions of isolated constructs" + tag, n, 2 if "minijinja::compiler::ast::Block" in prog.adts else 1)
+    ctx.floor(prefix + " parser functions of isolated constructs" + tag, n, 2 if "minijinja::compiler::ast::Block" in prog.adts else 1)
     # for-else: the else body must not be parsed with in_loop = true set by this loop
     pf = prog.fns.get(PARSER + "::parse_for_stmt")
     if pf is not None:
